@@ -12,8 +12,8 @@ package redis
 //@ func (*sub).Unsubscribe
 //@ props C09
 //@ requires [C09] s != nil && s.pool != nil && s.memStore != nil && s.mu != nil
-//@ modifies heap, ghostall(redigo.Conn.$cmds), ghostall(redigo.Conn.$lastCmd), ghostall(redigo.Conn.$flushes)
-//@ abstract call TrieDB).UnsubscribeLocked pure
+//@ modifies heap, ghostall(redigo.Conn.$cmds), ghostall(redigo.Conn.$lastCmd), ghostall(redigo.Conn.$flushes), ghostall(redigo.Conn.$lastInt)
+//@ abstract call TrieDB).UnsubscribeLocked pure contract
 // redis is told first; the in-memory index changes only if redis took the command
 //@ ensures [C09] result != nil ==> called(TrieDB.UnsubscribeLocked#1) == 0
 //@ ensures [C09] result == nil ==> called(TrieDB.UnsubscribeLocked#1) == 1 && called(Conn.Do#1) == 1
@@ -28,9 +28,25 @@ package redis
 //@ func (*sub).Init
 //@ props C09
 //@ requires [C09] s != nil && s.pool != nil && s.memStore != nil && s.mu != nil
-//@ modifies heap, ghostall(redigo.Conn.$cmds), ghostall(redigo.Conn.$lastCmd), ghostall(redigo.Conn.$flushes)
-//@ abstract call TrieDB).SubscribeLocked pure
+//@ modifies heap, ghostall(redigo.Conn.$cmds), ghostall(redigo.Conn.$lastCmd), ghostall(redigo.Conn.$flushes), ghostall(redigo.Conn.$lastInt)
+//@ abstract call TrieDB).SubscribeLocked pure contract
 //@ loop 1 invariant s != nil && s.memStore != nil && c != nil
 //@ loop 2 invariant s != nil && s.memStore != nil && c != nil && 1 <= i && (err == nil ==> (forall j int :: 0 <= j && j < len(rs) ==> rs[j].(type []byte)))
 //@ call Conn.Do#1 assert [C09] commandName == "hgetall" && len(args) == 1 && args[0].(type string) && args[0].(string) == concat("sub:", clientIDs[rangeindex])
 //@ call TrieDB.SubscribeLocked#1 assert [C09] $arg1 == clientIDs[rangeindex]
+
+// Subscribe: one HSET per subscription, into the hash of this client, under the field that Unsubscribe deletes and Init
+// reads back — the full topic name ("$share/<group>/<filter>" for a shared subscription) — all flushed before the
+// in-memory index is touched; the index is updated once, only after redis took the commands.
+//@ func EncodeSubscription trusted pure
+//@ func (*sub).Subscribe
+//@ props C09
+//@ requires [C09] s != nil && s.pool != nil && s.memStore != nil && s.mu != nil && (forall i int :: 0 <= i && i < len(subscriptions) ==> subscriptions[i] != nil)
+//@ modifies heap, ghostall(redigo.Conn.$cmds), ghostall(redigo.Conn.$lastCmd), ghostall(redigo.Conn.$flushes), ghostall(redigo.Conn.$lastInt)
+//@ abstract call TrieDB).SubscribeLocked pure contract
+//@ loop 1 invariant s != nil && s.memStore != nil && c != nil && subscriptions == old(subscriptions) && (forall i int :: 0 <= i && i < len(subscriptions) ==> subscriptions[i] != nil) && called(Conn.Send#1) == $k + 1 && called(TrieDB.SubscribeLocked#1) == 0 && called(Conn.Flush#1) == 0
+//@ call Conn.Send#1 assert [C09] commandName == "hset" && len(args) == 3 && args[0].(type string) && args[0].(string) == concat("sub:", clientID) && args[1].(type string) && args[1].(string) == fullTopic(v.ShareName, v.TopicFilter) && args[2].(type []byte)
+//@ call TrieDB.SubscribeLocked#1 assert [C09] $arg1 == clientID && $arg2 == subscriptions && called(Conn.Flush#1) == 1 && called(Conn.Send#1) == len(subscriptions)
+//@ ensures [C09] err != nil ==> called(TrieDB.SubscribeLocked#1) == 0
+//@ ensures [C09] err == nil ==> called(TrieDB.SubscribeLocked#1) == 1
+
